@@ -373,8 +373,8 @@ func main() {
 	r := hv.NewRand(hv.Seed())
 	// budget: the quick tier stays below ~4000 model-compared cases
 	type plan struct {
-		f             *xw.Format
-		nv, mut, rnd  int
+		f            *xw.Format
+		nv, mut, rnd int
 	}
 	plans := []plan{
 		{xw.WString, hv.Scale(24, 400), 8, hv.Scale(12, 200)},
